@@ -25,6 +25,46 @@ theorem pullTry_closed (r : Ring α) : (pullTry r).1.closed = r.closed := by
   · rfl
   · split <;> rfl
 
+theorem push_false_eq (r : Ring α) (x : α) (h : (push r x).2 = false) : (push r x).1 = r := by
+  simp only [push] at h ⊢
+  split <;> simp_all
+
+theorem absItems_push_ok {r : Ring α} (hr : RingInv r) (x : α) (hok : (push r x).2 = true) :
+    absItems (push r x).1 = absItems r ++ [x] := by
+  obtain ⟨base, items, h⟩ := hr
+  by_cases hfull : items.length = r.size
+  · rw [push_full h hfull] at hok; cases hok
+  · have hroom : items.length < r.size := by have := h.n_le; omega
+    rw [absItems_of_inv (push_room h hroom x).2, absItems_of_inv h]
+
+theorem absItems_pull_item {r : Ring α} (hr : RingInv r) {x : α} (hx : (pullTry r).2 = .item x) :
+    r.closed = false ∧ absItems r = x :: absItems (pullTry r).1 := by
+  obtain ⟨base, items, h⟩ := hr
+  by_cases hc' : r.closed = true
+  · rw [pull_closed hc'] at hx; cases hx
+  · have hc : r.closed = false := by simpa using hc'
+    cases items with
+    | nil => rw [pull_empty h hc] at hx; cases hx
+    | cons y ys =>
+      obtain ⟨hres, hinv⟩ := pull_item h hc
+      rw [hres] at hx
+      injection hx with hx; subst hx
+      exact ⟨hc, by rw [absItems_of_inv h, absItems_of_inv hinv]⟩
+
+theorem pullTry_not_item_eq (r : Ring α) (h : ∀ x, (pullTry r).2 ≠ .item x) : (pullTry r).1 = r := by
+  simp only [pullTry] at h ⊢
+  split
+  · rfl
+  · split
+    · rename_i x hx; simp only [hx] at h; split at h <;> simp_all
+    · rfl
+
+theorem pullTry_closed_iff (r : Ring α) : (pullTry r).2 = .closed ↔ r.closed = true := by
+  simp only [pullTry]
+  split
+  · simp_all
+  · split <;> simp_all
+
 theorem push_refines {r : Ring α} (hr : RingInv r) (x : α) :
     RingInv (push r x).1 ∧ Fifo.push (abs r) x = (abs (push r x).1, (push r x).2) := by
   obtain ⟨base, items, h⟩ := hr
